@@ -464,17 +464,21 @@ let cfg_of (pd : string) (su : string) (lm : string) : dconfig =
 
 let b01 b = if b then "1" else "0"
 
-let run_dec (pd : string) (su : string) (lm : string) (hex : string) : string =
+(* final: every value is printed as it is after the LAST call (as implrun does: it dumps after the
+   run), which differs from the value at return time only when a later pickle reaches an earlier
+   map / Dict through the shared memo *)
+let run_dec ?(final = false) (pd : string) (su : string) (lm : string) (hex : string) : string =
   load_calls := [];
   let cfg = cfg_of pd su lm in
   let inp = bytes_of_hex hex in
   let results = decode_stream cfg inp in
   let stale_app = ref false in
+  let end_heap = (match List.rev results with (_, st) :: _ -> st.d_heap | [] -> []) in
   let parts = List.map (fun (r, st) ->
       if st.d_stale then stale_app := true;
       match r with
       | Ok v ->
-        (match dump_val_capped st.d_heap v with
+        (match dump_val_capped (if final then end_heap else st.d_heap) v with
          | None -> "ok TOOBIG"
          | Some d ->
            let s = "ok " ^ string_of_bytes d in
@@ -528,34 +532,49 @@ let run_dec_chunk (pd : string) (su : string) (sched : string) (hex : string) : 
 
 (* C06: disassemble with the extracted Dis.dis (which re-assembles and compares, so it needs no
    trust), then run the CPython machine PyVM2.qload *)
+(* the object graph as a tree, with a node budget: shared / cyclic graphs may unfold
+   exponentially (printing only; the theorems do not involve this) *)
+let show_qv (st : qstate) (v : qv) : string =
+  let budget = ref 20000 in
+  let exception Deep in
+  let rec unf (d : int) (v : qv) : pv =
+    decr budget; if !budget < 0 || d > 400 then raise Deep;
+    match v with
+    | QNone -> PNone | QBool b -> PBool b | QInt z -> PInt z | QFloat f -> PFloat f
+    | QUni s -> PUni s | QStr s -> PStr s | QBytes s -> PBytes s | QBArr s -> PBArr s
+    | QTuple l -> PTuple (List.map (unf (d + 1)) l)
+    | QRef id ->
+      (match qheap_get st.q_heap id with
+       | Some (OList0 l) -> PList (List.map (unf (d + 1)) l)
+       | Some (ODict0 tr) -> PDict (List.map (fun (k, x) -> (unf (d + 1) k, unf (d + 1) x)) tr)
+       | None -> raise Deep)
+    | QGlobal (m, n) -> PGlobal (m, n)
+    | QCall (g, a) -> PCall (unf (d + 1) g, List.map (unf (d + 1)) a)
+    | QPers p -> PPers (unf (d + 1) p) in
+  match (try Some (unf 0 v) with Deep -> None) with
+  | None -> "DEEP"
+  | Some t -> "ok " ^ show_pv t
+
 let run_qload (hex : string) : string =
   match dis (bytes_of_hex hex) with
   | None -> "NODIS"
   | Some (prog, _) ->
     (match qload prog with
      | None -> "GIVEUP"
-     | Some (v, st) ->
-       (* the object graph as a tree, with a node budget: shared / cyclic graphs may unfold
-          exponentially (printing only; the theorems do not involve this) *)
-       let budget = ref 20000 in
-       let exception Deep in
-       let rec unf (d : int) (v : qv) : pv =
-         decr budget; if !budget < 0 || d > 400 then raise Deep;
-         match v with
-         | QNone -> PNone | QBool b -> PBool b | QInt z -> PInt z | QFloat f -> PFloat f
-         | QUni s -> PUni s | QStr s -> PStr s | QBytes s -> PBytes s | QBArr s -> PBArr s
-         | QTuple l -> PTuple (List.map (unf (d + 1)) l)
-         | QRef id ->
-           (match qheap_get st.q_heap id with
-            | Some (OList0 l) -> PList (List.map (unf (d + 1)) l)
-            | Some (ODict0 tr) -> PDict (List.map (fun (k, x) -> (unf (d + 1) k, unf (d + 1) x)) tr)
-            | None -> raise Deep)
-         | QGlobal (m, n) -> PGlobal (m, n)
-         | QCall (g, a) -> PCall (unf (d + 1) g, List.map (unf (d + 1)) a)
-         | QPers p -> PPers (unf (d + 1) p) in
-       (match (try Some (unf 0 v) with Deep -> None) with
-        | None -> "DEEP"
-        | Some t -> "ok " ^ show_pv t))
+     | Some (v, st) -> show_qv st v)
+
+(* C11: successive load() calls on one Unpickler (PyVM2.qload_all), one pickle per argument *)
+let run_qloads (hexes : string list) : string =
+  let progs = List.map (fun h -> dis (bytes_of_hex h)) hexes in
+  if List.exists (fun p -> match p with Some (_, []) -> false | _ -> true) progs then "NODIS"
+  else
+    let progs = List.map (fun p -> match p with Some (pr, _) -> pr | None -> []) progs in
+    match qload_all progs q_init with
+    | None -> "GIVEUP"
+    | Some xs ->
+      (* printed in the final heap, as the reference prints CPython's objects after the last load() *)
+      let last = (match List.rev xs with (_, st) :: _ -> st | [] -> q_init) in
+      String.concat " | " (List.map (fun (v, _) -> show_qv last v) xs)
 
 let show_opt_hin (v : val0) : string = b01 (hashable v)
 
@@ -630,6 +649,8 @@ let handle (line : string) : string =
   | [] -> ""
   | "dec" :: pd :: su :: lm :: rest ->
     run_dec pd su lm (match rest with [h] -> h | [] -> "" | _ -> failwith "dec args")
+  | "decfinal" :: pd :: su :: lm :: rest ->
+    run_dec ~final:true pd su lm (match rest with [h] -> h | [] -> "" | _ -> failwith "dec args")
   | "eq" :: rest ->
     parse_heap := [];
     let (a, r1) = parse_one rest in
@@ -653,6 +674,7 @@ let handle (line : string) : string =
   | "norm" :: proto :: su :: rest -> run_norm proto su rest
   | "normh" :: proto :: su :: rest -> run_normh proto su rest
   | "qload" :: rest -> run_qload (match rest with [h] -> h | _ -> "")
+  | "qloads" :: rest -> run_qloads rest
   | "decchunk" :: pd :: su :: _ :: sched :: rest -> run_dec_chunk pd su sched (match rest with [h] -> h | _ -> "")
   | "prog" :: proto :: su :: rest -> run_prog proto su rest
   | "pyload" :: proto :: su :: rest -> run_pyload proto su rest
